@@ -87,6 +87,10 @@ fn open(p: &P6) -> Result<Conn, Fail> {
         Entry::Http => {
             let mut d = Driver::new(p.backend, Via::Http, &cfg).map_err(sv)?;
             d.content_length = p.enc == Encoding::ContentLength;
+            // a share of the uploads is slow (virtual time passes between the two halves)
+            if p.spec.seed % 5 == 0 && p.spec.len < 100_000 {
+                d.stall_secs = [11, 31, 61, 121, 301][(p.spec.seed / 5 % 5) as usize];
+            }
             let sizes = p.sizes.clone();
             d.chunker = Some(Box::new(move |data: &[u8]| cut(&Bytes::copy_from_slice(data), &sizes)));
             Ok(Conn::Drv(d))
